@@ -117,6 +117,12 @@ func verifHarness_C15_getRoute() {
 	verifAssert(r.GetRoute("n") == first, "GetRoute returns the named route")
 	second := api(verifChoice("second", 4), "/two/{v}")
 	verifAssert(r.GetRoute("n") == second, "GetRoute returns the route most recently registered under the name")
+	// renaming the older route afterwards must not disturb the name's current owner
+	if verifChoice("renameFirst", 2) == 1 {
+		first.NamedTo("other", r)
+		verifAssert(r.GetRoute("other") == first, "a renamed route is found under its new name")
+		verifAssert(r.GetRoute("n") == second, "renaming an older route leaves the most recent registration under the name")
+	}
 	verifAssert(r.GetRoute("nope") == nil, "unknown names give nil")
 	verifCover("C15 getRoute")
 }
